@@ -366,7 +366,7 @@ func runHistoryReqObj(t *testing.T, c *engine.Check) {
 				for _, signer := range []string{"outer.k", "peer.k-own-kid", "peer.k-outer-kid", "op-key"} {
 					n := fmt.Sprintf("outer=%s iss=%s client_id=%s signer=%s", outer, oiss, ocid, signer)
 					names = append(names, n)
-					letters[n] = letterT{"feature": "on", "outer": outer, "oiss": oiss, "ocid": ocid, "oaud": "[I]", "ort": "same",
+					letters[n] = letterT{"feature": "on", "outer": outer, "oiss": oiss, "ocid": ocid, "oaud": "[I]", "ort": "same", "outerRT": "code",
 						"signer": signer, "members": "all", "plainScope": "openid email"}
 				}
 			}
